@@ -50,6 +50,11 @@ def cases(tier, seed):
         x = decades[i % len(decades)] if i < 2 * len(decades) else float(loguniform(rng, 1e-3, 900))
         out.append({"id": "smat-%d" % i, "kind": "smat", "m": _gen_m(rng, i), "x": x, "nmed": float(rng.uniform(1.0, 1.6)),
                     "wl": float(rng.uniform(0.4, 0.8)), "seed": [seed, "smat", i], "cost": 1 + x / 100})
+    # round-number sizes: a radius of a whole number of half wavelengths in the medium puts x on a multiple of pi, where sin x (the
+    # start value of several recurrences) vanishes
+    for i in range(8 if tier == "quick" else 40):
+        out.append({"id": "smat-pi-%d" % i, "kind": "smat", "m": _gen_m(rng, i), "x": (1 + i % 8) * math.pi * [1.0, 0.5][(i // 8) % 2] if i < 16 else (1 + i % 30) * math.pi,
+                    "nmed": [1.0, 1.33, float(rng.uniform(1.0, 1.6))][i % 3], "wl": [1.0, 0.5, float(rng.uniform(0.4, 0.8))][i % 3], "seed": [seed, "smatpi", i], "cost": 2})
     # metallic spheres (large imaginary index) up to sizes of a few hundred
     for i, (mm, xx) in enumerate([([0.16, 4.9], 50.0), ([0.16, 4.9], 120.0), ([0.2, 3.0], 300.0), ([0.16, 4.9], 200.0), ([1.3, 7.0], 20.0), ([0.05, 4.0], 2.0)]):
         out.append({"id": "smat-metal-%d" % i, "kind": "smat", "m": mm, "x": xx, "nmed": 1.33, "wl": 0.7, "seed": [seed, "smatmetal", i], "cost": 2})
